@@ -335,6 +335,20 @@ def run_check(ctx, prop, t0):
                     res.notes.append('search round failed: %r' % (ex,))
                 if any(v['kind'] == 'concrete' for v in res.violations):
                     break
+    if ctx.pid == 'C01' and not ctx.quick and not broken:
+        # thorough tier: re-check every compiled property file with the independent checker
+        import subprocess
+        coq = os.path.join(ctx.root, 'coq')
+        mods = ['JP.' + os.path.basename(f)[:-2] for f in sorted(__import__('glob').glob(os.path.join(coq, 'Prop_C*.v')))]
+        try:
+            p = subprocess.run(['coqchk', '-silent', '-o', '-Q', coq, 'JP'] + mods, capture_output=True, text=True, timeout=7200)
+            out = p.stdout + p.stderr
+            axioms = re.search(r'\* Axioms:(.*?)\n\s*\n', out, flags=re.S)
+            res.notes.append('coqchk exit %d; axioms: %s' % (p.returncode, ' '.join(axioms.group(1).split()) if axioms else '?'))
+            if p.returncode != 0 or not axioms or '<none>' not in axioms.group(1):
+                broken.append('coqchk does not accept the development or reports axioms: %s' % out[-400:])
+        except Exception as ex:
+            res.notes.append('coqchk could not be run: %r' % (ex,))
     for b in broken:
         res.violation('broken-theorem', 'proof', b)
     return finish(ctx, prop, res, t0, ax_text if ok_ax else '')
